@@ -79,8 +79,8 @@ def value_alphabet(tier: str, seed: int):
     # values that round to zero at some precision
     pos += [_f(t) for t in (("0.4", "0.04", "0.004", "0.0049", "4e-11", "1e-10") if thorough else ("0.4", "0.004", "1e-10"))]
     # generic mantissas (digits rotated by the seed) and a few binary-exact / classic values
-    free = ("1234567.891", "123.456", "12345.6789", "1.234e-6", "123456789012345", "1234.5", "0.123456789012345") \
-        if thorough else ("1234567.891", "123.456", "1.234e-6", "123456789012345")
+    free = ("1234567.891", "123.456", "12345.6789", "0.000001234", "123456789012345", "1234.5", "0.123456789012345") \
+        if thorough else ("1234567.891", "123.456", "0.000001234", "123456789012345")
     pos += [_f(_rot(t, seed)) for t in free]
     pos += [_f(t) for t in (("0.333333333333333", "0.666666666666667", "0.125", "0.375", "12", "50", "52", "0.12", "0.29",
                              "0.57", "1.005", "2.675", "0.1", "0.2", "0.3", "0.7", "1.1", "1000.5", "7", "999999999999999",
@@ -200,9 +200,10 @@ def judge(case, value, text):
     return ident, f"{kind}:{sign}:{mag}:{bad[0] if bad else 'ok'}", bad
 
 
-def _observe(cell):
+def _observe(table, r, c):
     """-> ("ok", value, text) | ("exc", type name, message)"""
     try:
+        cell = table.cell(r, c)
         if not isinstance(cell, NumberCell):
             return ("exc", "NotANumberCell", type(cell).__name__)
         value = cell.value
@@ -223,7 +224,7 @@ def eval_batch(cases, path):
     ncols = min(BATCH_COLS, max(2, n))
     nrows = max(2, -(-n // ncols))
     results = [[] for _ in cases]
-    stats = {"outcomes": {}, "nontrivial": 0, "reopen_text_differs": 0, "exponent_in_auto": 0, "samples": [], "observed": []}
+    stats = {"outcomes": {}, "nontrivial": 0, "reopen_text_differs": 0, "exponent_in_auto": 0, "samples": [], "observed": [], "reopened": 0}
     # record=True: the sigfig package calls warnings.resetwarnings(), which would re-enable printing
     with warnings.catch_warnings(record=True):
         warnings.simplefilter("ignore")
@@ -236,17 +237,26 @@ def eval_batch(cases, path):
             try:
                 table.write(r, c, value)
                 table.set_cell_formatting(r, c, kind, **_kwargs(kind, params))
-                live.append(_observe(table.cell(r, c)))
+                live.append(_observe(table, r, c))
             except Exception as e:  # noqa: BLE001
                 live.append(("exc", type(e).__name__, str(e)[:120]))
-        doc.save(path)
-        doc2 = Document(path)
-        table2 = doc2.sheets[0].tables[0]
+        try:
+            doc.save(path)
+            doc2 = Document(path)
+            table2 = doc2.sheets[0].tables[0]
+        except Exception as e:  # noqa: BLE001 - the batch cannot be persisted: reported on its first case
+            kind, value, params = cases[0]
+            sign, mag = ref.classify(ref.dec(value), None)
+            ident = {"format": kind, "sign": sign, "magnitude": mag, "pattern": f"exception-on-save:{type(e).__name__}",
+                     "phase": "reopen-only"}
+            results[0].append((ident, f"saving and reopening a table of {n} formatted cells raised {type(e).__name__}: {str(e)[:200]}"))
+            return results, stats
         for i, case in enumerate(cases):
             r, c = divmod(i, ncols)
             kind, value, params = case
-            again = _observe(table2.cell(r, c))
+            again = _observe(table2, r, c)
             stats["observed"].append((live[i], again))
+            stats["reopened"] += 1
             live_pattern = None
             for phase, obs in (("live", live[i]), ("reopen", again)):
                 if obs[0] == "exc":
@@ -305,19 +315,19 @@ def work(task):
             if ident["phase"] == "reopen-only" and new_identity:
                 # a failure that needs its neighbours (format table of the saved batch) keeps the smallest
                 # of four contexts that reproduces it: alone, with both neighbours, the prefix, the whole batch
-                for lo, hi in ((i, i + 1), (max(0, i - 1), i + 2), (0, i + 2), (0, len(cases))):
-                    sub = cases[lo:hi]
+                for a, b in ((i, i + 1), (max(0, i - 1), i + 2), (0, i + 2), (0, len(cases))):
+                    sub = cases[a:b]
                     again, _ = eval_batch(sub, path)
-                    if any(i2 == ident for i2, _ in again[i - lo]):
+                    if any(i2 == ident for i2, _ in again[i - a]):
                         break
-                replay = {"cases": sub, "index": i - lo}
+                replay = {"cases": sub, "index": i - a}
             part.fail(ident, detail, replay)
     try:
         os.remove(path)
     except OSError:
         pass
     n = len(cases)
-    part.count("evaluations", 2 * n)
+    part.count("evaluations", n + stats["reopened"])
     part.count("cases", n)
     part.count(f"cases_{group}", n)
     part.count("nontrivial_cases", stats["nontrivial"])
@@ -367,7 +377,6 @@ def main():
     tasks = []
     for g, cases in GROUPS.items():
         tasks += [(g, lo, min(len(cases), lo + BATCH)) for lo in range(0, len(cases), BATCH)]
-    # largest first would starve nothing: all tasks are the same size except the tails
     for res in pmap(work, tasks, args.jobs):
         run.merge(res)
     c = run.counters
